@@ -6,18 +6,22 @@
 //!   a <hex|-|none>          DBUS_SESSION_BUS_ADDRESS := these bytes (none: unset); get_session_bus_path()
 //!                           -> "<hex> P:<hex path>" | "A:<hex abstract name>" | "E" | "PANIC" | "SKIP" (NUL byte)
 //!   u <hex|->               std::str::from_utf8(bytes).is_ok() -> "1" | "0"
-//!   y                       get_system_bus_path() -> "P:<hex>" | "E" | "PANIC"
+//!   y                       get_system_bus_path() -> "P:<hex>" | "N:<hex of the path reported missing>" | "E" | "PANIC"
 //!   h <0|1> <p|a> <script> [m]
 //!                           connect_to_bus(addr, with_fd) against a scripted server; p = path socket in the
 //!                           scratch directory, a = abstract socket. script = steps separated by ';', the first is
 //!                           the greeting (sent on accept), the following are sent one per CRLF-terminated line
-//!                           received from the client. A step is "k" or "c" followed by ",<hex chunk>"*: each chunk
+//!                           received from the client. A step is "k", "l", "c" or "g" followed by ",<chunk>"*
+//!                           (chunk = "<hex>" | "<hh>*<n>" joined by '+', optionally "/<piece size>"): each chunk
 //!                           is one write(); "c": the server shuts its receiving side down before the chunks of the
 //!                           step (the client's next write fails) and closes after them. A last step "x<k>": the
 //!                           server reads exactly k more bytes from the client and closes.
+//!                           "l": like "k", but a chunk is written only after the client has read the previous one
+//!                           (SIOCOUTQ == 0), so every chunk is one read. "g": the server writes CR-LF-free bytes until
+//!                           the client closes or the deadline passes; W:<n> reports how many the kernel accepted.
 //!                           "m": after the script the server reads one more line (BEGIN) and then sends a D-Bus
 //!                           signal; the client, if connected, must receive exactly that message.
-//!                           -> "<ok|authfailed|fdfailed|err|panic|hang> S:<hex of all bytes the server received> M:<ok|bad:..|->"
+//!                           -> "<ok|authfailed|fdfailed|err|panic|hang> S:<hex of all bytes the server received> M:<ok|bad:..|-> W:<n>"
 //! Nothing here sleeps; the only timers are hang detectors (DEADLINE).
 
 use rbverif::{hex, unhex};
@@ -67,6 +71,38 @@ struct Step {
     chunks: Vec<Vec<u8>>,
     closes: bool,
     read_exact: Option<usize>, // "x<k>": read exactly k more bytes from the client, then close
+    lockstep: bool,            // "l": write a chunk only after the client has consumed the previous one
+    garbage: bool,             // "g": keep writing CR-LF-free bytes until the client closes (or the deadline)
+}
+
+/// "<hex>" | "<hh>*<n>" joined by '+', optionally "/<piece size>"
+fn parse_chunks(tok: &str) -> Vec<Vec<u8>> {
+    let (body, piece) = match tok.split_once('/') {
+        Some((b, s)) => (b, Some(s.parse::<usize>().unwrap())),
+        None => (tok, None),
+    };
+    let mut bytes = Vec::new();
+    for seg in body.split('+') {
+        match seg.split_once('*') {
+            Some((b, n)) => {
+                let v = u8::from_str_radix(b, 16).unwrap();
+                bytes.extend(std::iter::repeat(v).take(n.parse().unwrap()));
+            }
+            None => bytes.extend(unhex(seg)),
+        }
+    }
+    match piece {
+        Some(s) => bytes.chunks(s).map(|c| c.to_vec()).collect(),
+        None => vec![bytes],
+    }
+}
+
+/// bytes written to the socket that the peer has not read yet (SIOCOUTQ)
+fn unread_by_peer(s: &UnixStream) -> i32 {
+    use std::os::fd::AsRawFd;
+    let mut n: nix::libc::c_int = 0;
+    unsafe { nix::libc::ioctl(s.as_raw_fd(), nix::libc::TIOCOUTQ, &mut n) };
+    n
 }
 
 fn parse_script(s: &str) -> Vec<Step> {
@@ -75,9 +111,11 @@ fn parse_script(s: &str) -> Vec<Step> {
             let mut it = st.split(',');
             let tag = it.next().unwrap_or("k");
             Step {
-                chunks: it.map(unhex).collect(),
+                chunks: it.flat_map(parse_chunks).collect(),
                 closes: tag == "c",
                 read_exact: tag.strip_prefix('x').and_then(|k| k.parse().ok()),
+                lockstep: tag == "l",
+                garbage: tag == "g",
             }
         })
         .collect()
@@ -181,6 +219,7 @@ fn handshake_line(with_fd: bool, kind: &str, script: &str, probe: bool, dir: &st
 
     // ---- the scripted server (this thread)
     let mut got: Vec<u8> = Vec::new();
+    let mut written = 0usize; // bytes of a "g" step the kernel accepted
     let mut timed_out = false;
     let (mut s, _) = listener.accept().unwrap();
     s.set_read_timeout(Some(DEADLINE)).unwrap();
@@ -214,12 +253,30 @@ fn handshake_line(with_fd: bool, kind: &str, script: &str, probe: bool, dir: &st
         if st.closes {
             let _ = s.shutdown(std::net::Shutdown::Read);
         }
+        if st.garbage {
+            let block = [b'x'; 4096];
+            let t0 = std::time::Instant::now();
+            while t0.elapsed() < DEADLINE {
+                match s.write(&block) {
+                    Ok(n) => written += n,
+                    Err(_) => break,
+                }
+            }
+        }
         for c in &st.chunks {
             if !c.is_empty() && s.write_all(c).is_err() {
                 break;
             }
             let _ = s.flush();
-            std::thread::yield_now();
+            if st.lockstep {
+                // the next chunk must arrive in a read of its own: wait until this one has been taken
+                let t0 = std::time::Instant::now();
+                while unread_by_peer(&s) > 0 && t0.elapsed() < DEADLINE {
+                    std::thread::yield_now();
+                }
+            } else {
+                std::thread::yield_now();
+            }
         }
         if st.closes {
             let _ = s.shutdown(std::net::Shutdown::Both);
@@ -262,7 +319,7 @@ fn handshake_line(with_fd: bool, kind: &str, script: &str, probe: bool, dir: &st
         }
         Err(_) => ("hang".to_string(), "-".to_string()), // the client thread is left behind
     };
-    format!("{} S:{} M:{}", class, hex(&got), m)
+    format!("{} S:{} M:{} W:{}", class, hex(&got), m, written)
 }
 
 fn main() {
@@ -298,12 +355,13 @@ fn main() {
             }
             ["y"] => match std::panic::catch_unwind(rustbus::connection::get_system_bus_path) {
                 Err(_) => "PANIC".to_string(),
+                Ok(Err(rustbus::connection::Error::PathDoesNotExist(p))) => format!("N:{}", hex(p.as_bytes())),
                 Ok(Err(_)) => "E".to_string(),
                 Ok(Ok(a)) => show_addr(&a),
             },
             ["h", fd, kind, script] | ["h", fd, kind, script, _] => {
                 if hangs >= MAX_HANGS {
-                    "skipped S:- M:-".to_string()
+                    "skipped S:- M:- W:0".to_string()
                 } else {
                     let r = handshake_line(*fd == "1", kind, script, parts.len() == 5, &dir);
                     if r.starts_with("hang") {
